@@ -81,7 +81,13 @@ std::string run_case(Src& s, CaseInfo& ci)
   GenOpts go;
   go.max_rules = 5;
   go.max_ns = 1;
+  // the kind of buffer is drawn first: over the executable samples (tens of KiB) no regexps are generated
+  // (an atom-less one such as /.*./ costs seconds per scan there, and a case is hundreds of scans); the
+  // fixed rules still run the regexp engine on them
+  const size_t bk = s.weighted({30, 12, 10, 8, 40});
+  g_gen_no_regexp = bk >= 1 && bk <= 3;
   GSet gs = gen_ruleset(s, go);
+  g_gen_no_regexp = false;
   for (auto& r : gs.rules) r.ns = "gen";
   std::vector<int> all;
   for (size_t i = 0; i < gs.rules.size(); i++) all.push_back((int) i);
@@ -91,7 +97,7 @@ std::string run_case(Src& s, CaseInfo& ci)
   // the buffer
   bytes B;
   std::string kind;
-  switch (s.weighted({30, 12, 10, 8, 40}))
+  switch (bk)
   {
   case 0:
   {
